@@ -233,7 +233,7 @@ CHECKS = {
              'ECMAScript double-quoted literals (restricted to what every engine and strict mode accept: no legacy octal, no \\u{..}, no raw line terminator) '
              'is evaluated over the symbolic output and z3 decides well-formedness and value == input for all inputs; (b) Expression::parse_lit_str on '
              'literals of <= 8 symbolic characters against the escape table of template string literals (invalid \\x/\\u must be diagnosed); (c) entities: make_mapping inserts (name, full replacement text) for an arbitrary table entry, and entities::decode on every ASCII string of 2..10 characters returns char::from_u32(value) for &#x..; / &#..; (None if invalid) and the unmodified table value for names. '
-             'parse_next_entity itself, longer strings and composition over whole templates are outside.',
+             '(d) StrName::parse_next_entity with decode as environment: progress, decode called exactly on the `&`...`;` stretch, accepted references consumed whole, rejected ones kept verbatim and diagnosed.  Longer strings and composition over whole templates are outside.',
         note='Trusted: MIR text; String/Chars/push_str/Range/char::from_u32 contracts; ParseState cursor contracts (assume-guarantee with K16a); the two reference '
              'decoders in checks/c12.py. Digit-table lemmas are proved before they are used. If gen_lit_str cannot be executed by M the check only probes critical '
              'strings end to end (violation if one differs, otherwise inconclusive).',
